@@ -735,7 +735,11 @@ func check(tier string) int {
 }
 
 func genPlanSample(seed uint64, ep *Episode, st *Sites) interface{} {
-	return map[string]string{"note": "plans are drawn per run from Derive(seed, consim, plans, episode) using the per-(task,site) occurrence counts of the sequential baseline; see replay files for literal plans"}
+	// a literal plan of the kind that needs no occurrence counts (cold episode 0);
+	// warm plans are drawn per run from Derive(seed, consim, plans, episode) using the
+	// per-(task,site) occurrence counts of the sequential baseline
+	cep := genColdEpisode(seed, coldOffset)
+	return map[string]interface{}{"cold_episode": cep, "cold_plan": genColdPlan(core.Derive(seed, "consim", "cold-plan", 0), cep, st)}
 }
 
 func firstReport(log string) string {
